@@ -51,7 +51,7 @@ def main():
     bad = 0
     with concurrent.futures.ThreadPoolExecutor(max_workers=2) as ex:
         for name, ok, msg in ex.map(run_one, names):
-            print(('PASS ' if ok else 'FAIL ') + name + ': ' + msg)
+            print(('PASS ' if ok else 'FAIL ') + name + ': ' + msg, flush=True)
             bad += 0 if ok else 1
     print('%d selftests, %d failed' % (len(names), bad))
     sys.exit(1 if bad else 0)
